@@ -28,7 +28,10 @@ func BuildEndpointPolicyTree(
 		}
 		var endpointPolicy *map[urltree.Method]EndpointPolicy
 		existingEndpointPolicy := endpointPolicyTree.Lookup(endpoint.URL)
-		if existingEndpointPolicy.Value != nil {
+		// reuse the method map only of the very same URL: a wildcard or path-parameter
+		// endpoint that merely matches this URL must not receive this endpoint's policy
+		if existingEndpointPolicy.Value != nil &&
+			existingEndpointPolicy.NormalizedURL == endpoint.URL {
 			existingPolicy := *existingEndpointPolicy.Value
 			existingPolicy[urltree.Method(endpoint.Method)] = EndpointPolicy{
 				URL:       endpoint.URL,
